@@ -6,7 +6,8 @@
     parameters <-> template and key <-> KeySerialization <-> key (internal/protoserialization through a verif bridge,
     and the public Manager.AddKey + insecurecleartextkeyset route) and records the results;
 (T) Trace_KeyParams.tla judges every record (Equal both ways, byte-identical re-serialization, type URL, material
-    type, variant <-> prefix type, id requirement);
+    type, variant <-> prefix type, id requirement, and -- KeyFormatWire.tla, a protobuf wire decoder in TLA+ -- every
+    parameter at its documented proto field of the key template);
 (M) KeysetIO.tla is model checked on small constants; (R/T) every writer x reader x mode pair is executed on generated
     keysets and Trace_KeysetIO.tla judges the recorded projections and the primitive interoperability results."""
 import concurrent.futures as cf
@@ -307,11 +308,24 @@ SELFTESTS = ["Self_KeyFormatWire"]   # protobuf encoding examples + Tink's templ
 
 MANIFEST = dict(
     category="model_checking",
-    text=("KeyParams.tla is the key-type inventory as TLA+ data (fields, domains, ParamsOK, Usable, Representable); TLC "
-          "enumerates every parameter record, the real constructors / serializers / parsers are executed on every record "
-          "and material class, and Trace_KeyParams.tla judges Equal (both directions), byte-identical re-serialization, type "
-          "URL, key material type, variant <-> output prefix type and id requirement."),
-    note="Key material is sampled by class. Conformance over an enumerated parameter space, not a proof over all keys.",
-    technique="TLA+ inventory + TLC-generated cases replayed into real code + TLC trace validation + negative control",
+    text=("KeyParams.tla is the key-type inventory as TLA+ data (29 parameter families / 42 key types: fields, domains, ParamsOK, "
+          "Usable, Representable). TLC (Plan_KeyParams) enumerates every parameter record (thorough: the full dependent product, "
+          "43k records; quick: boundary-thinned, 7.5k); the REAL constructors, serializers and parsers are executed on every record "
+          "and on keys of every kind x material class {random, all-zero, leading-zero, id 2^32-1, id 0}, through "
+          "internal/protoserialization (verif bridge) and through Manager.AddKey + cleartext binary/JSON write/read. "
+          "Trace_KeyParams.tla judges every record: Equal both ways, byte-identical re-serialization, type URL, material type, "
+          "variant <-> output prefix type, id requirement, and -- with a protobuf wire decoder written in TLA+ (KeyFormatWire.tla, "
+          "field tables transcribed from proto/*.proto) -- that every parameter sits at its documented proto field. KeysetIO.tla "
+          "models handle -> proto keyset -> writer (binary|JSON x cleartext|encrypted(kek, ad)|noSecrets) -> reader; it is model "
+          "checked (85k / 1.4M states) and every writer x reader pair (16 x 16) is executed on TLC-generated keysets (catalog "
+          "singles with ids 0 / 2^32-1, all ordered pairs with DISABLED / DESTROYED keys, all material-type sequences, seeded "
+          "random); Trace_KeysetIO.tla judges projections, Public() and primitive interoperability (aead, daead, mac, prf, "
+          "signature, hybrid) between original and re-read handle."),
+    note=("Key material is sampled by class, not enumerated. The wire-level field check covers key templates of 23 key types (not "
+          "ECIES / composite / deriver nested templates, not the key messages). KeysetIO keysets use 26 catalog keys, not every "
+          "key type. Known findings (KNOWN_FINDINGS.json): JWT CustomKID parameters are not representable in a key template; "
+          "ML-DSA VariantNoPrefixWithPrehashID keysets cannot be read back. Hook: testing/verifhooks/protoserialization.go."),
+    technique=("TLA+ inventory + TLC-generated cases replayed into real code + TLC trace validation (incl. a TLA+ protobuf wire "
+               "decoder) + TLC model checking of the keyset I/O state machine + negative controls"),
     design_ref="DESIGN.md section 6, C12; Appendix A",
 )
